@@ -382,6 +382,15 @@ def check(repo, rep, tier):
             # rule functions that call it, and its attribute reads are judged there, under the guards of the caller
             rep.ok('R14.6', '%s:%s %s' % (mod.rel, fn.lineno, fn.name), '%s: private helper, shape-specific reads judged in its callers' % fn.name, nontrivial=False)
             continue
+        par_ = getattr(fn, '_parent', None)
+        if isinstance(par_, ast.ClassDef) and fn.name.startswith('_') and not fn.name.startswith('__'):
+            uses_ = [a_ for a_ in ast.walk(mod.tree) if isinstance(a_, ast.Attribute) and a_.attr == fn.name and isinstance(a_.ctx, ast.Load)]
+            as_arg = [a_ for a_ in uses_ if isinstance(getattr(a_, '_parent', None), ast.Call) and a_ in getattr(a_, '_parent').args]
+            if uses_ and len(as_arg) == len(uses_):
+                # a private method that is only handed on as a function (the per-atom step of a structural map): what it is
+                # applied to is decided by the map, its reads are those of the atom case
+                rep.ok('R14.6', '%s:%s %s' % (mod.rel, fn.lineno, fn.name), '%s: private method used only as a callback, shape-specific reads belong to the map that applies it' % fn.name, nontrivial=False)
+                continue
         n_reads += ru.r_shape_safety(repo, rep, mod, fn, 'R14.6')
     rep.floor('shape-specific attribute reads judged', n_reads, 40)
     r_partial_lookups(repo, rep)
